@@ -7,4 +7,4 @@ Extraction Language OCaml.
 Extraction "pipelined_model.ml"
   init step run_from commit_attempt rstep rrun lookup insert
   resolved_regions resolved_regions_prefix run_on_range locate covers flushed_keys need_resolve
-  upd_start upd_end next_key writes_of BinInt.Z.of_N.
+  upd_start upd_end next_key writes_of served_covers resolved_seq crun crash_state BinInt.Z.of_N.
